@@ -1,4 +1,5 @@
 import QG.Lemmas.FixCounts
+import QG.Props.C14
 
 /-!
 # C16 — `fix_counts` completes and bit-reverses any outcome table
@@ -321,5 +322,81 @@ example : let t : List (List Bool × Nat) := [([true, true, false], 7), ([false,
   have h2 : ∀ p ∈ t, p.1.length = 3 := by decide
   have h3 : (t.map (·.1)).Nodup := by decide
   exact ⟨h1, h2, h3, fix_counts_spec 0 3 (by decide) t h1 h2 h3, by decide⟩
+
+/-! ## the simulator clause: `fix_counts` after `_measurament` -/
+
+section simulator
+open QG.Model.RunValidate QG.Lemmas.RunValidate
+
+private theorem dictGet_of_mem {α : Type} (t : List (List Bool × α)) (hnd : (t.map (·.1)).Nodup) (k : List Bool) (v : α)
+    (h : (k, v) ∈ t) : dictGet t k = some v := by
+  induction t with
+  | nil => simp at h
+  | cons p t ih =>
+    simp only [List.map_cons, List.nodup_cons] at hnd
+    rcases List.mem_cons.mp h with rfl | h'
+    · simp [dictGet, List.find?]
+    · have hne : p.1 ≠ k := by
+        intro e
+        exact hnd.1 (e ▸ List.mem_map_of_mem (f := (·.1)) h')
+      have hb : (p.1 == k) = false := by simpa using hne
+      have := ih hnd.2 h'
+      simpa [dictGet, List.find?, hb] using this
+
+/-- **`fix_counts` applied to a simulator result** (the last clause of C16, composed with C14's model of `_measurament`).
+For `m ≥ 1` pairwise distinct measured qubits of the layout and any probability vector of length `2^n`: `_measurament`
+followed by `fix_counts(·, m)` raises nothing and returns the `2^m` keys in ascending binary order, where the value under
+a key is the total probability of the basis states whose string of measured bits, **reversed**, is that key: character
+`j` of the returned key is the bit of the `(m−1−j)`-th measured qubit.  When the `j`-th measure instruction writes
+classical bit `j` this is Qiskit's little-endian key. -/
+theorem fix_counts_of_measurement {α : Type} [AddCommMonoid α] (num : Num α) (hl : Lawful num) (layout : List Nat)
+    (meas : List (Nat × Nat)) (prob : List α) (hm : 1 ≤ meas.length)
+    (hmem : ∀ t ∈ meas, t.1 ∈ layout) (hdist : (meas.map Prod.fst).Nodup)
+    (hlen : prob.length = 2 ^ layout.length) :
+    ∃ out, measurement num prob meas layout.length layout = .ok out ∧
+      fixCounts 0 out meas.length = .ok ((List.range (2 ^ meas.length)).map fun k =>
+        (bitsBE meas.length k,
+          (((List.range (2 ^ layout.length)).filter
+              (fun i => (QG.C14.keyOfState layout meas i).reverse = bitsBE meas.length k)).map
+            (fun i => prob.getD i 0)).sum)) := by
+  obtain ⟨out, ho, hnd, hkeys, hlen'⟩ := QG.C14.keys_exact num layout meas prob hmem hdist hlen
+  obtain ⟨out', ho', _, hval⟩ := QG.C14.values_marginal num hl layout meas prob hmem hlen
+  have e : out' = out := by rw [ho] at ho'; exact (Except.ok.inj ho').symm
+  subst e
+  refine ⟨out', ho, ?_⟩
+  have hne : out' ≠ [] := by
+    intro h
+    rw [h] at hlen'
+    have : 0 < 2 ^ meas.length := Nat.two_pow_pos _
+    simp at hlen'
+    omega
+  have hl' : ∀ p ∈ out', p.1.length = meas.length := fun p hp =>
+    (hkeys p.1).mp (List.mem_map_of_mem (f := Prod.fst) hp)
+  rw [fix_counts_spec 0 meas.length hm out' hne hl' hnd]
+  refine congrArg Except.ok ?_
+  unfold spec
+  apply List.map_congr_left
+  intro k _
+  congr 1
+  have hk : (bitsBE meas.length k).reverse ∈ out'.map Prod.fst :=
+    (hkeys _).mpr (by simp [bitsBE_length])
+  obtain ⟨⟨k', v⟩, hp, hk'⟩ := List.mem_map.mp hk
+  simp only at hk'
+  subst hk'
+  rw [dictGet_of_mem out' hnd _ v hp, Option.getD_some, hval _ v hp]
+  congr 2
+  apply List.filter_congr
+  intro i _
+  simp only [decide_eq_decide]
+  constructor
+  · intro h; rw [h, List.reverse_reverse]
+  · intro h; rw [← h, List.reverse_reverse]
+
+/-- non-vacuity: layout `[3, 5]`, the measure instructions `measure 5 -> c0`, `measure 3 -> c1`, a 4-entry vector -/
+example : let layout := [3, 5]; let meas : List (Nat × Nat) := [(5, 0), (3, 1)]; let prob : List Nat := [1, 2, 3, 4]
+    1 ≤ meas.length ∧ (∀ t ∈ meas, t.1 ∈ layout) ∧ (meas.map Prod.fst).Nodup ∧ prob.length = 2 ^ layout.length := by
+  decide
+
+end simulator
 
 end QG.C16
